@@ -65,26 +65,43 @@ func probeTree(ls []struct {
 			err = fmt.Errorf("panic: %v", p)
 		}
 	}()
-	root := scope.New(scope.Params{})
-	mid := scope.NewChild(root, scope.ChildParams{})
-	leaf := scope.NewChild(mid, scope.ChildParams{})
-	levels := []app.Scope{root, mid, leaf}
+	// every scope gets its listeners before its child is created (the measurement must not depend
+	// on how listeners registered later reach scopes that already exist: that is the check's job)
 	var mu sync.Mutex
-	for i, l := range ls {
-		i, l := i, l
-		levels[l.level].On(app.BeforeCloseEvent, func(data interface{}) error {
-			if sc, ok := data.(app.Scope); !ok || sc != leaf {
+	var leaf app.Scope
+	levels := make([]app.Scope, 3)
+	for lv := 0; lv < 3; lv++ {
+		switch lv {
+		case 0:
+			levels[0] = scope.New(scope.Params{})
+		default:
+			levels[lv] = scope.NewChild(levels[lv-1], scope.ChildParams{})
+		}
+		for i, l := range ls {
+			if l.level != lv {
+				continue
+			}
+			i, l := i, l
+			levels[lv].On(app.BeforeCloseEvent, func(data interface{}) error {
+				mu.Lock()
+				isLeaf := leaf != nil
+				if sc, ok := data.(app.Scope); !ok || !isLeaf || sc != leaf {
+					mu.Unlock()
+					return nil
+				}
+				seen = append(seen, i)
+				mu.Unlock()
+				if l.fail {
+					return fmt.Errorf("calibration listener %d refuses", i)
+				}
 				return nil
-			}
-			mu.Lock()
-			seen = append(seen, i)
-			mu.Unlock()
-			if l.fail {
-				return fmt.Errorf("calibration listener %d refuses", i)
-			}
-			return nil
-		})
+			})
+		}
 	}
+	root, mid := levels[0], levels[1]
+	mu.Lock()
+	leaf = levels[2]
+	mu.Unlock()
 	leaf.Close()
 	mid.Close()
 	root.Close()
